@@ -1,5 +1,606 @@
 /-
-C08 — property theorems (stub: not built yet).
+C08 — Returned matches are well-formed and index conversion is exact.
+
+Property theorems about the models `RegexVerif.Model.Utf8` (rune index → byte index: match.go
+`stringByteOffsets`/`runeByteOffsets`/`byteRange`, regexp.go `newStringByteMapper`/`byteIndex`,
+compat `bytesToRunesAndOffsets`/`readRunes`, the rune-start lookup) and
+`RegexVerif.Model.MatchBuilder` (the capture arrays of match.go).  The models are tied to the Go
+source by the correspondence legs of harness/internal/legs/c08.go.
+
+A string is a list of segments `(rune, width)` as produced by Go's `for range` decoding; `WF` is the
+unicode/utf8 decoding contract (invalid byte = U+FFFD of width 1, literal U+FFFD = width 3, otherwise
+width = `utf8.RuneLen`).  `byteOffsetSpec segs i` = sum of the widths of the first `i` segments.
 -/
+import RegexVerif.Lemmas.Utf8
+import RegexVerif.Lemmas.MatchBuilder
+
 namespace RegexVerif.Props.C08
+open RegexVerif RegexVerif.Utf8 RegexVerif.Lemmas.Utf8
+
+/-- a string mixing 1–4 byte runes, a literal U+FFFD (3 bytes) and two invalid bytes (U+FFFD, 1 byte):
+    `"a" "é" <0xff> "€" U+FFFD "😀" <0x80> "z"` -/
+def sample : List (Int × Nat) :=
+  [(97, 1), (0xE9, 2), (0xFFFD, 1), (0x20AC, 3), (0xFFFD, 3), (0x1F600, 4), (0xFFFD, 1), (122, 1)]
+
+theorem sample_wf : WF sample := by decide
+
+/-! ### the three string mappers and the two adapter tables are exact -/
+
+/-- **`stringByteOffsets` is the prefix-sum table.**  For every string (valid UTF-8 or not) and every
+    rune index `0 ≤ i ≤ n`, the table behind `Capture.ByteRange` for string input — including its
+    "nil means identity" fast path — answers the byte offset of rune `i`. -/
+theorem stringByteOffsets_eq_prefixSums (segs : List (Int × Nat)) (hwf : WF segs) (i : Nat) (hi : i ≤ segs.length) :
+    offsetAt (stringByteOffsets segs) i = some (byteOffsetSpec segs i) := by
+  unfold stringByteOffsets byteOffsetSpec widths
+  exact offsetAt_lazy computedLen (·.2) true segs
+    (by intro s hs h1; rw [← computedLen_eq_width s (hwf s hs)]; exact h1) i hi
+
+example : (List.range 9).map (offsetAt (stringByteOffsets sample)) =
+    [0, 1, 3, 4, 7, 10, 14, 15, 16].map some := by decide
+example : stringByteOffsets [(97, 1), (98, 1)] = none := by decide
+
+/-- **The delta table + binary search of `FindAllStringIndex` is exact.**  For every string and
+    every rune index `0 ≤ i ≤ n`, `byteIndex i` on the table built by `newStringByteMapper` (or the
+    identity when the mapper is nil) is the byte offset of rune `i`. -/
+theorem stringByteMapper_eq (segs : List (Int × Nat)) (hwf : WF segs) (i : Nat) (hi : i ≤ segs.length) :
+    mapIndex (newStringByteMapper segs) i = byteOffsetSpec segs i := by
+  have hlin := linLookup_tbl segs 0 0 i hi
+  simp only [Nat.zero_add] at hlin
+  have hsum : byteOffsetSpec segs i = i + extra segs i := by
+    unfold byteOffsetSpec extra
+    rw [map_computedLen_eq segs hwf]
+    have h1 : ∀ w ∈ (widths segs).take i, 1 ≤ w := by
+      intro w hw
+      obtain ⟨s, hs, rfl⟩ := List.mem_map.mp (List.mem_of_mem_take hw)
+      exact (width_pos s (hwf s hs)).1
+    rw [sum_eq_len_add_extra _ h1]
+    have : i ≤ (widths segs).length := by simpa [widths] using hi
+    simp [List.length_take, Nat.min_eq_left this]
+  unfold newStringByteMapper
+  rw [nsbmLoop_none]
+  split
+  · rename_i hnil
+    rw [hnil] at hlin
+    simp only [mapIndex, hsum]
+    simp [linLookup] at hlin; omega
+  · simp only [mapIndex]
+    rw [byteIndex_eq_linLookup _ (tbl_sorted segs 0 0), hlin, hsum]
+
+example : (List.range 9).map (mapIndex (newStringByteMapper sample)) = [0, 1, 3, 4, 7, 10, 14, 15, 16] := by decide
+example : newStringByteMapper sample = some ⟨[2, 4, 5, 6], [1, 3, 5, 8]⟩ := by decide
+
+/-- **compat `bytesToRunesAndOffsets` is exact** (no decoding contract needed: it uses the decoder's
+    width directly): the runes are the decoded runes and the table answers the byte offset. -/
+theorem bytesToRunes_offsets_eq (segs : List (Int × Nat)) (i : Nat) (hi : i ≤ segs.length) :
+    (bytesToRunesAndOffsets segs).1 = runes segs ∧
+    offsetAt (bytesToRunesAndOffsets segs).2 i = some (byteOffsetSpec segs i) := by
+  refine ⟨rfl, ?_⟩
+  unfold bytesToRunesAndOffsets byteOffsetSpec widths
+  exact offsetAt_lazy (fun s : Int × Nat => s.2) (·.2) true segs (by intro s _ h; exact h) i hi
+
+example : (List.range 9).map (offsetAt (bytesToRunesAndOffsets sample).2) = [0, 1, 3, 4, 7, 10, 14, 15, 16].map some := by decide
+
+/-- **compat `readRunes` is exact**: the offsets of `FindReaderIndex`/`FindReaderSubmatchIndex`. -/
+theorem readRunes_offsets_eq (segs : List (Int × Nat)) (i : Nat) (hi : i ≤ segs.length) :
+    (readRunes segs).1 = runes segs ∧ (readRunes segs).2[i]? = some (byteOffsetSpec segs i) := by
+  unfold readRunes
+  rw [readRunesLoop_eq]
+  refine ⟨by simp, ?_⟩
+  have : [0] ++ (prefixSums (widths segs) 0).tail = prefixSums (widths segs) 0 := by
+    conv => rhs; rw [prefixSums_eq_cons_tail]
+    simp
+  simp only [this]
+  rw [prefixSums_get _ _ _ (by simpa [widths] using hi)]
+  simp [byteOffsetSpec]
+
+example : (readRunes sample).2 = [0, 1, 3, 4, 7, 10, 14, 15, 16] := by decide
+
+/-- **`runeByteOffsets` is the prefix-sum table of the re-encoded text** — for every rune slice,
+    including surrogates, negative values and values above U+10FFFF (each counted as the 3 bytes of
+    U+FFFD, which is what `string(runes)` writes for them). -/
+theorem runeByteOffsets_eq_encoded (rs : List Int) (i : Nat) (hi : i ≤ rs.length) :
+    offsetAt (runeByteOffsets rs) i = some (((rs.map encLen).take i).sum) := by
+  unfold runeByteOffsets
+  exact offsetAt_lazy encLen encLen false rs (by intro s _ h; exact h) i hi
+
+example : (List.range 6).map (offsetAt (runeByteOffsets [97, 0xD800, -5, 0x110000, 0x1F600])) =
+    [0, 1, 4, 7, 10, 14].map some := by decide
+
+/-- **`runeByteOffsets` agrees with the string tables on valid UTF-8**: if the string has no invalid
+    byte (every U+FFFD segment is a literal one), the rune-input table for its runes gives the same
+    byte offsets as the string. -/
+theorem runeByteOffsets_eq (segs : List (Int × Nat)) (hwf : WF segs)
+    (hvalid : ∀ s ∈ segs, s.1 = runeError → s.2 = 3) (i : Nat) (hi : i ≤ segs.length) :
+    offsetAt (runeByteOffsets (runes segs)) i = some (byteOffsetSpec segs i) := by
+  rw [runeByteOffsets_eq_encoded _ _ (by simpa [runes] using hi)]
+  have : (runes segs).map encLen = widths segs := by
+    unfold runes widths
+    rw [List.map_map]
+    apply List.map_congr_left
+    intro s hs; exact encLen_eq_width s (hwf s hs) (hvalid s hs)
+  rw [this]; rfl
+
+example : (List.range 4).map (offsetAt (runeByteOffsets (runes [(0xFFFD, 3), (0x1F600, 4), (97, 1)]))) =
+    (List.range 4).map (fun i => some (byteOffsetSpec [(0xFFFD, 3), (0x1F600, 4), (97, 1)] i)) := by decide
+
+/-- **All mappers agree.**  For every string and every rune span `[i, i+len)` inside it, the
+    byte span computed through `stringByteOffsets` (Match.ByteRange), through the delta table
+    (`FindAllStringIndex`), through compat's `bytesToRunesAndOffsets` (`FindAllIndex`) and through
+    `readRunes` (`FindReader*Index`) is one and the same pair of numbers. -/
+theorem mappers_agree (segs : List (Int × Nat)) (hwf : WF segs) (i : Nat) (hi : i ≤ segs.length) :
+    offsetAt (stringByteOffsets segs) i = some (mapIndex (newStringByteMapper segs) i) ∧
+    offsetAt (bytesToRunesAndOffsets segs).2 i = some (mapIndex (newStringByteMapper segs) i) ∧
+    (readRunes segs).2[i]? = some (mapIndex (newStringByteMapper segs) i) := by
+  rw [stringByteMapper_eq segs hwf i hi]
+  exact ⟨stringByteOffsets_eq_prefixSums segs hwf i hi, (bytesToRunes_offsets_eq segs i hi).2,
+    (readRunes_offsets_eq segs i hi).2⟩
+
+/-- **`ByteRange` is the byte span of exactly the addressed rune span**: index = bytes before rune
+    `ri`, length = sum of the widths of segments `ri … ri+rl-1` (each invalid byte counting as one
+    rune of one byte). -/
+theorem byteRange_is_span (segs : List (Int × Nat)) (hwf : WF segs) (ri rl : Nat) (h : ri + rl ≤ segs.length) :
+    byteRange (stringByteOffsets segs) ri rl =
+      some (byteOffsetSpec segs ri, (((widths segs).drop ri).take rl).sum) := by
+  have h1 := stringByteOffsets_eq_prefixSums segs hwf ri (by omega)
+  have h2 := stringByteOffsets_eq_prefixSums segs hwf (ri + rl) h
+  have hadd : byteOffsetSpec segs (ri + rl) = byteOffsetSpec segs ri + (((widths segs).drop ri).take rl).sum := by
+    unfold byteOffsetSpec; exact sum_take_add _ _ _
+  unfold byteRange
+  cases hbo : stringByteOffsets segs with
+  | none =>
+    rw [hbo] at h1 h2
+    simp only [offsetAt, Option.some.injEq] at h1 h2
+    simp only [Option.some.injEq, Prod.mk.injEq]
+    omega
+  | some l =>
+    rw [hbo] at h1 h2
+    simp only [offsetAt] at h1 h2
+    simp only [h1, h2, Option.some.injEq, Prod.mk.injEq, true_and]
+    omega
+
+example : byteRange (stringByteOffsets sample) 2 4 = some (3, 11) := by decide
+
+/-- the same for rune input: `ByteRange` is the span in the UTF-8 encoding of the rune slice. -/
+theorem byteRange_runes_is_span (rs : List Int) (ri rl : Nat) (h : ri + rl ≤ rs.length) :
+    byteRange (runeByteOffsets rs) ri rl =
+      some (((rs.map encLen).take ri).sum, (((rs.map encLen).drop ri).take rl).sum) := by
+  have h1 := runeByteOffsets_eq_encoded rs ri (by omega)
+  have h2 := runeByteOffsets_eq_encoded rs (ri + rl) h
+  have hadd := sum_take_add (rs.map encLen) ri rl
+  unfold byteRange
+  cases hbo : runeByteOffsets rs with
+  | none =>
+    rw [hbo] at h1 h2
+    simp only [offsetAt, Option.some.injEq] at h1 h2
+    simp only [Option.some.injEq, Prod.mk.injEq]
+    omega
+  | some l =>
+    rw [hbo] at h1 h2
+    simp only [offsetAt] at h1 h2
+    simp only [h1, h2, Option.some.injEq, Prod.mk.injEq, true_and]
+    omega
+
+/-- byte offsets are strictly increasing in the rune index: distinct rune positions have distinct
+    byte positions, so a byte span determines its rune span. -/
+theorem byteOffsetSpec_strictMono (segs : List (Int × Nat)) (hwf : WF segs) (i j : Nat) (hij : i < j)
+    (hj : j ≤ segs.length) : byteOffsetSpec segs i < byteOffsetSpec segs j := by
+  unfold byteOffsetSpec
+  apply sum_take_lt _ _ i j hij (by simpa [widths] using hj)
+  intro w hw
+  obtain ⟨s, hs, rfl⟩ := List.mem_map.mp hw
+  exact (width_pos s (hwf s hs)).1
+
+/-! ### byte index → rune index (start offsets of the string entry points) -/
+
+/-- **`decodeStringWithStart`/`getRunesAndStart` invert the mapping**: the byte offset of rune `i`
+    is reported as rune index `i`. -/
+theorem runeStart_of_offset (segs : List (Int × Nat)) (hwf : WF segs) (i : Nat) (hi : i ≤ segs.length) :
+    runeStart segs (byteOffsetSpec segs i : Nat) = (i : Int) := by
+  have := runeStartLoop_at segs (fun s hs => (width_pos s (hwf s hs)).1) 0 0 i (-1) hi
+  simpa [runeStart, byteOffsetSpec] using this
+
+/-- … and conversely a reported rune index `k ≥ 0` means the byte index given was exactly the
+    offset of rune `k` (a rune boundary); every other byte index yields −1. -/
+theorem offset_of_runeStart (segs : List (Int × Nat)) (b : Int) :
+    runeStart segs b = -1 ∨
+    ∃ k, k ≤ segs.length ∧ runeStart segs b = (k : Int) ∧ b = (byteOffsetSpec segs k : Nat) := by
+  rcases runeStartLoop_found b segs 0 0 (-1) with h | ⟨m, hm, h1, h2⟩
+  · left; exact h
+  · right; exact ⟨m, hm, by simpa [runeStart] using h1, by simpa [byteOffsetSpec] using h2⟩
+
+example : (List.range 17).map (fun b => runeStart sample (b : Nat)) =
+    [0, 1, -1, 2, 3, -1, -1, 4, -1, -1, 5, -1, -1, -1, 6, 7, 8] := by decide
+
+/-! ### the capture arrays (match.go): `addMatch`, `balanceMatch`, `removeMatch`, `tidy`, `Groups()`
+
+`Inv b` (Lemmas/MatchBuilder) is the representation invariant of the arrays: per slot the first
+`2 * matchcount` entries were produced by pushes of well-formed intervals and by balancing entries
+`(-3 - t, -4 - t)` whose `t` is the array position of the capture that is innermost after the
+cancellation (−2 if none), the arrays are long enough, and `balancing = false` implies that no
+entry is negative.  `absOf b c` is the abstract view: the live captures of group `c`, oldest first. -/
+
+open RegexVerif.MatchBuilder RegexVerif.Lemmas.MatchBuilder
+
+/-- a fresh match satisfies the invariant and has no capture in any group -/
+theorem newMatch_abs (k c : Nat) : Inv (newMatch k) ∧ absOf (newMatch k) c = [] := by
+  refine ⟨newMatch_inv k, ?_⟩
+  have hcnt : cnt (newMatch k) c = 0 := by
+    simp [cnt, newMatch, List.getD_eq_getElem?_getD, List.getElem?_replicate]; split <;> rfl
+  simp [absOf, absSlot, hcnt, liveStack]
+
+/-- **`addMatch` pushes.**  Adding a well-formed interval to group `c` appends it to the live
+    captures of `c`, leaves every other group alone and keeps the invariant. -/
+theorem addMatch_abs (b : Builder) (hb : Inv b) (c : Nat) (hc : c < b.matchcount.length) (s l : Int)
+    (hs : 0 ≤ s) (hl : 0 ≤ l) :
+    Inv (addMatch b c s l) ∧
+    ∀ c', absOf (addMatch b c s l) c' = if c' = c then absOf b c ++ [(s, l)] else absOf b c' := by
+  refine ⟨addMatch_inv b hb c hc s l hs hl, ?_⟩
+  intro c'
+  rw [absOf_eq, (live_addMatch b hb c hc s l c').1]
+  by_cases h : c' = c
+  · subst h
+    obtain ⟨st, hst⟩ := (hb.slot c' hc).2
+    have : ¬ s < 0 := by omega
+    simp only [ite_true, liveStack_append_pair _ _ _ _ (rep_even hst), this, ite_false, List.reverse_cons, absOf_eq]
+  · simp only [h, ite_false, absOf_eq]
+
+/-- **`balanceMatch` cancels the innermost live capture.**  When group `c` is matched, the entry
+    written by `balanceMatch` (back-pointer encoding included) removes exactly the last live capture
+    of `c`, leaves every other group alone and keeps the invariant. -/
+theorem balanceMatch_abs (b : Builder) (hb : Inv b) (c : Nat) (hc : c < b.matchcount.length)
+    (hm : isMatched b c = true) :
+    Inv (balanceMatch b c) ∧
+    ∀ c', absOf (balanceMatch b c) c' = if c' = c then (absOf b c).dropLast else absOf b c' := by
+  obtain ⟨st, hst⟩ := (hb.slot c hc).2
+  have hne := (isMatched_iff b hb c hc st hst).mp hm
+  match st, hst, hne with
+  | (q, s, l) :: st', hst, _ =>
+    refine ⟨balanceMatch_inv b hb c hc q s l st' hst, ?_⟩
+    intro c'
+    rw [absOf_eq, (live_balanceMatch b hb c hc q s l st' hst c').1]
+    by_cases h : c' = c
+    · subst h
+      have : -3 - topPos st' < 0 := by have := topPos_ge st'; omega
+      simp only [ite_true, liveStack_append_pair _ _ _ _ (rep_even hst), this, tail_reverse_eq, absOf_eq]
+    · simp only [h, ite_false, absOf_eq]
+
+/-- **`removeMatch` undoes the last `addMatch`** (what `uncapture` relies on when backtracking):
+    counts and live captures of every group are as before, and the invariant holds again. -/
+theorem removeMatch_undoes_addMatch (b : Builder) (hb : Inv b) (c : Nat) (hc : c < b.matchcount.length) (s l : Int)
+    (hs : 0 ≤ s) (hl : 0 ≤ l) :
+    Inv (removeMatch (addMatch b c s l) c) ∧
+    ∀ c', absOf (removeMatch (addMatch b c s l) c) c' = absOf b c' ∧ cnt (removeMatch (addMatch b c s l) c) c' = cnt b c' := by
+  have hb2 := addMatch_inv b hb c hc s l hs hl
+  have key := live_addMatch b hb c hc s l
+  have hc2 : c < (addMatch b c s l).matchcount.length := by rw [(key 0).2.2.1]; exact hc
+  refine ⟨removeMatch_inv _ hb2 c hc2 (by rw [(key c).2.1]; simp), ?_⟩
+  intro c'
+  have := live_remove_after_append b _ hb hb2 c hc (key 0).2.2.1 s l (fun c' => (key c').1) (fun c' => (key c').2.1) c'
+  exact ⟨by rw [absOf_eq, this.1, absOf_eq], this.2⟩
+
+/-- **`removeMatch` undoes the last `balanceMatch`**: the cancelled capture is live again. -/
+theorem removeMatch_undoes_balanceMatch (b : Builder) (hb : Inv b) (c : Nat) (hc : c < b.matchcount.length)
+    (hm : isMatched b c = true) :
+    Inv (removeMatch (balanceMatch b c) c) ∧
+    ∀ c', absOf (removeMatch (balanceMatch b c) c) c' = absOf b c' ∧ cnt (removeMatch (balanceMatch b c) c) c' = cnt b c' := by
+  obtain ⟨st, hst⟩ := (hb.slot c hc).2
+  have hne := (isMatched_iff b hb c hc st hst).mp hm
+  match st, hst, hne with
+  | (q, s, l) :: st', hst, _ =>
+    have hb2 := balanceMatch_inv b hb c hc q s l st' hst
+    have key := live_balanceMatch b hb c hc q s l st' hst
+    have hc2 : c < (balanceMatch b c).matchcount.length := by rw [(key 0).2.2.1]; exact hc
+    refine ⟨removeMatch_inv _ hb2 c hc2 (by rw [(key c).2.1]; simp), ?_⟩
+    intro c'
+    have := live_remove_after_append b _ hb hb2 c hc (key 0).2.2.1 _ _ (fun c' => (key c').1) (fun c' => (key c').2.1) c'
+    exact ⟨by rw [absOf_eq, this.1, absOf_eq], this.2⟩
+
+/-- `removeMatch` of any group with a positive count keeps the invariant (it exposes an earlier
+    state of the slot). -/
+theorem removeMatch_keeps_inv (b : Builder) (hb : Inv b) (c : Nat) (hc : c < b.matchcount.length)
+    (hpos : 0 < cnt b c) : Inv (removeMatch b c) := removeMatch_inv b hb c hc hpos
+
+/-- **`isMatched` is "has a live capture"**: the `(-1, -2)` test on the last entry is exact. -/
+theorem isMatched_iff_live (b : Builder) (hb : Inv b) (c : Nat) (hc : c < b.matchcount.length) :
+    isMatched b c = true ↔ absOf b c ≠ [] := by
+  obtain ⟨st, hst⟩ := (hb.slot c hc).2
+  rw [isMatched_iff b hb c hc st hst, absOf_eq, rep_live hst]
+  cases st <;> simp [vals]
+
+/-- **`matchIndex`/`matchLength` read the innermost live capture** (through the back-pointer when the
+    last entry is a balancing entry) — the interval `transferCapture` and back-references use. -/
+theorem matchIndex_matchLength_top (b : Builder) (hb : Inv b) (c : Nat) (hc : c < b.matchcount.length)
+    (xs : List (Int × Int)) (s l : Int) (h : absOf b c = xs ++ [(s, l)]) :
+    matchIndex b c = s ∧ matchLength b c = l := by
+  obtain ⟨st, hst⟩ := (hb.slot c hc).2
+  rw [absOf_eq, rep_live hst] at h
+  have h' : vals st = (s, l) :: xs.reverse := by
+    have := congrArg List.reverse h; simpa using this
+  match st, hst, h' with
+  | (q, s', l') :: st', hst, h' =>
+    simp only [vals, List.map_cons, List.cons.injEq, Prod.mk.injEq] at h'
+    obtain ⟨⟨rfl, rfl⟩, _⟩ := h'
+    exact matchIndex_matchLength b hb c hc q _ _ st' hst
+
+/-- **`tidy` leaves exactly the live captures** (also `compactBalancedMatches` of replace.go, the same
+    loops): afterwards the first `2 * matchcount[c]` entries of `matches[c]` are the live captures of
+    group `c`, flattened, oldest first; no entry is negative; `balancing` is false; the abstract view
+    is unchanged and the invariant holds. -/
+theorem tidy_abs (b : Builder) (hb : Inv b) (c : Nat) (hc : c < b.matchcount.length) :
+    (arr (tidy b) c).take (2 * cnt (tidy b) c) = (absOf b c).flatMap (fun p => [p.1, p.2]) ∧
+    cnt (tidy b) c = (absOf b c).length ∧
+    (∀ x ∈ (arr (tidy b) c).take (2 * cnt (tidy b) c), 0 ≤ x) ∧
+    (tidy b).balancing = false ∧
+    absOf (tidy b) c = absOf b c := by
+  obtain ⟨st, hst⟩ := (hb.slot c hc).2
+  obtain ⟨t1, t2, _⟩ := tidy_slot b hb c hc st hst
+  have habs : absOf b c = (vals st).reverse := by rw [absOf_eq, rep_live hst]
+  have hnn := vals_nonneg hst
+  have t1' : (arr (tidy b) c).take (2 * cnt (tidy b) c) = flat (vals st).reverse := t1
+  refine ⟨by rw [habs]; exact t1', by rw [t2, habs]; simp [vals], ?_, ?_, ?_⟩
+  · intro x hx
+    rw [t1'] at hx
+    simp only [flat, List.mem_flatMap] at hx
+    obtain ⟨p, hp, hx⟩ := hx
+    have := hnn p hp
+    simp only [List.mem_cons, List.mem_nil_iff, or_false] at hx
+    rcases hx with rfl | rfl
+    · exact this.1
+    · exact this.2
+  · unfold tidy; split
+    · rfl
+    · rename_i h; simpa using h
+  · obtain ⟨st2, h1, h2⟩ := rep_of_pairs (vals st).reverse hnn [] [] Rep.nil
+    simp only [List.nil_append] at h1
+    have : absOf (tidy b) c = (liveStack (flat (vals st).reverse) []).reverse := by
+      rw [absOf_eq]; show (liveStack ((arr (tidy b) c).take (2 * cnt (tidy b) c)) []).reverse = _; rw [t1']
+    rw [this, rep_live h1, h2, habs]; simp [vals]
+
+/-- the invariant survives `tidy` (a tidied match can be handed to `FindNextMatch`'s machinery or
+    inspected again) -/
+theorem tidy_keeps_inv (b : Builder) (hb : Inv b) : Inv (tidy b) := by
+  unfold tidy
+  by_cases hbal : b.balancing = true
+  · simp only [hbal, ite_true]
+    have hlen : (tidySlots b.arrays b.matchcount).length = b.arrays.length := by
+      by_cases h0 : 0 < b.arrays.length
+      · exact (tidySlots_getD b.arrays b.matchcount hb.len 0 h0).2.2
+      · have h1 : b.arrays = [] := by cases hb' : b.arrays with
+          | nil => rfl
+          | cons _ _ => rw [hb'] at h0; simp at h0
+        rw [h1]; simp [tidySlots]
+    have hmc : b.matchcount.length = b.arrays.length := hb.len.symm
+    refine ⟨by simp, ?_, ?_⟩
+    · intro c hc
+      have hc' : c < b.matchcount.length := by simp [hlen] at hc; omega
+      obtain ⟨st, hst⟩ := (hb.slot c hc').2
+      have ts := tidy_slot b hb c hc' st hst
+      have hnn := vals_nonneg hst
+      simp only [tidy, hbal, ite_true] at ts
+      obtain ⟨st2, h1, _⟩ := rep_of_pairs (vals st).reverse hnn [] [] Rep.nil
+      simp only [List.nil_append] at h1
+      refine ⟨⟨?_, ?_⟩, ⟨st2, by rw [ts.1]; exact h1⟩⟩
+      · have hl := congrArg List.length ts.1
+        simp only [live, List.length_take] at hl
+        have hfl : (flat (vals st).reverse).length = 2 * st.length := by rw [flat_length]; simp [vals]
+        rw [hfl, ← ts.2.1] at hl
+        omega
+      · rcases (hb.slot c hc').1.2 with h0 | h2
+        · left; apply List.eq_nil_of_length_eq_zero; rw [ts.2.2, h0]; rfl
+        · right; rw [ts.2.2]; exact h2
+    · intro _ c hc x hx
+      have hc' : c < b.matchcount.length := by simp [hlen] at hc; omega
+      have := (tidy_abs b hb c hc').2.2.1 x
+      simp only [tidy, hbal, ite_true] at this
+      exact this hx
+  · have : b.balancing = false := by simpa using hbal
+    simp only [this, Bool.false_eq_true, ite_false]; exact hb
+
+/-- **`Groups()` after `tidy`**: the `Captures` of group `c` are its live captures in order, and the
+    embedded `Capture` of the group is the last of them (`(0, 0)` when there is none). -/
+theorem groups_after_tidy (b : Builder) (hb : Inv b) (c : Nat) (hc : c < b.matchcount.length) :
+    newGroup (arr (tidy b) c) (cnt (tidy b) c) = ((absOf b c).getLast?.getD (0, 0), absOf b c) := by
+  obtain ⟨t1, t2, _⟩ := tidy_abs b hb c hc
+  rw [t2]
+  apply newGroup_of_flat
+  rw [← t2]; exact t1
+
+/-- builders the interpreter can reach when every interval it adds lies inside `[0, N]`, balancing
+    only matched groups and removing only what it added -/
+inductive Reach (N : Int) (k : Nat) : Builder → Prop
+  | init : Reach N k (newMatch k)
+  | add (b : Builder) (c : Nat) (s l : Int) : Reach N k b → c < k → 0 ≤ s → 0 ≤ l → s + l ≤ N → Reach N k (addMatch b c s l)
+  | bal (b : Builder) (c : Nat) : Reach N k b → c < k → isMatched b c = true → Reach N k (balanceMatch b c)
+  | rem (b : Builder) (c : Nat) : Reach N k b → c < k → 0 < cnt b c → Reach N k (removeMatch b c)
+
+/-- every reachable builder satisfies the representation invariant, keeps its number of slots, and
+    all real (non-negative) entries of its arrays — live or cancelled, so that an `uncapture` that
+    revives a cancelled capture is covered — are intervals inside `[0, N]` -/
+theorem reach_inv (N : Int) (k : Nat) (b : Builder) (h : Reach N k b) :
+    Inv b ∧ b.matchcount.length = k ∧ ∀ c, c < k → Bounded N ((arr b c).take (2 * cnt b c)) := by
+  induction h with
+  | init =>
+    refine ⟨newMatch_inv k, by simp [newMatch], ?_⟩
+    intro c _
+    have hcnt : cnt (newMatch k) c = 0 := by
+      simp [cnt, newMatch, List.getD_eq_getElem?_getD, List.getElem?_replicate]; split <;> rfl
+    simp [hcnt, Bounded, pairsOf]
+  | add b c s l _ hc hs hl hN ih =>
+    obtain ⟨hb, hk, hB⟩ := ih
+    have hc' : c < b.matchcount.length := by omega
+    have key := live_addMatch b hb c hc' s l
+    refine ⟨addMatch_inv b hb c hc' s l hs hl, by rw [(key 0).2.2.1]; exact hk, ?_⟩
+    intro c' hck
+    have h1 : (arr (addMatch b c s l) c').take (2 * cnt (addMatch b c s l) c') = _ := (key c').1
+    rw [h1]
+    by_cases h : c' = c
+    · subst h
+      obtain ⟨st, hst⟩ := (hb.slot c' hc').2
+      simp only [ite_true]
+      intro p hp hp0
+      rw [pairsOf_append_pair _ _ _ (rep_even hst)] at hp
+      rcases List.mem_append.mp hp with hp | hp
+      · exact hB c' hck p hp hp0
+      · simp only [List.mem_cons, List.mem_nil_iff, or_false] at hp; subst hp; exact ⟨hl, hN⟩
+    · simp only [h, ite_false]; exact hB c' hck
+  | bal b c _ hc hm ih =>
+    obtain ⟨hb, hk, hB⟩ := ih
+    have hc' : c < b.matchcount.length := by omega
+    obtain ⟨st, hst⟩ := (hb.slot c hc').2
+    have hne := (isMatched_iff b hb c hc' st hst).mp hm
+    match st, hst, hne with
+    | (q, s, l) :: st', hst, _ =>
+      have key := live_balanceMatch b hb c hc' q s l st' hst
+      refine ⟨balanceMatch_inv b hb c hc' q s l st' hst, by rw [(key 0).2.2.1]; exact hk, ?_⟩
+      intro c' hck
+      have h1 : (arr (balanceMatch b c) c').take (2 * cnt (balanceMatch b c) c') = _ := (key c').1
+      rw [h1]
+      by_cases h : c' = c
+      · subst h
+        simp only [ite_true]
+        intro p hp hp0
+        rw [pairsOf_append_pair _ _ _ (rep_even hst)] at hp
+        rcases List.mem_append.mp hp with hp | hp
+        · exact hB c' hck p hp hp0
+        · simp only [List.mem_cons, List.mem_nil_iff, or_false] at hp; subst hp
+          have := topPos_ge st'; simp only at hp0; omega
+      · simp only [h, ite_false]; exact hB c' hck
+  | rem b c _ hc hpos ih =>
+    obtain ⟨hb, hk, hB⟩ := ih
+    have hc' : c < b.matchcount.length := by omega
+    have key := live_removeMatch b hb c hc'
+    refine ⟨removeMatch_inv b hb c hc' hpos, by simp [removeMatch]; exact hk, ?_⟩
+    intro c' hck
+    have h1 : (arr (removeMatch b c) c').take (2 * cnt (removeMatch b c) c') = _ := (key c').1
+    rw [h1]
+    by_cases h : c' = c
+    · subst h
+      simp only [ite_true]
+      obtain ⟨st, hst⟩ := (hb.slot c' hc').2
+      rcases rep_last hst with ⟨h0, _⟩ | ⟨P', x, y, heq, _⟩
+      · have := live_length b hb c' hc'; rw [h0] at this; simp at this; omega
+      · have hP' : P'.length + 2 = 2 * cnt b c' := by
+          have := congrArg List.length heq; rw [live_length b hb c' hc'] at this; simp at this; omega
+        have hP'e : P'.length % 2 = 0 := by omega
+        have : (live b c').take (2 * (cnt b c' - 1)) = P' := by
+          rw [heq, List.take_append_of_le_length (by omega), List.take_of_length_le (by omega)]
+        rw [this]
+        intro p hp hp0
+        have hB' := hB c' hck
+        have hl : (arr b c').take (2 * cnt b c') = P' ++ [x, y] := heq
+        rw [hl, Bounded, pairsOf_append_pair _ _ _ hP'e] at hB'
+        exact hB' p (List.mem_append_left _ hp) hp0
+    · simp only [h, ite_false]; exact hB c' hck
+
+/-- **Captures stay inside the input.**  If every interval the interpreter adds lies inside `[0, N]`
+    (N = number of runes), then whatever sequence of add / balance / remove it performs, every live
+    capture of every group lies inside `[0, N]`, and after `tidy` these are exactly the captures in
+    the arrays that `Groups()` reads. -/
+theorem captures_in_bounds (N : Int) (k : Nat) (b : Builder) (h : Reach N k b) (c : Nat) (hc : c < k) :
+    (∀ p ∈ absOf b c, 0 ≤ p.1 ∧ 0 ≤ p.2 ∧ p.1 + p.2 ≤ N) ∧
+    (newGroup (arr (tidy b) c) (cnt (tidy b) c)).2 = absOf b c := by
+  obtain ⟨hb, hk, hB⟩ := reach_inv N k b h
+  have hc' : c < b.matchcount.length := by omega
+  refine ⟨?_, by rw [groups_after_tidy b hb c hc']⟩
+  obtain ⟨st, hst⟩ := (hb.slot c hc').2
+  intro p hp
+  rw [absOf_eq, rep_live hst, List.mem_reverse] at hp
+  have hmem := rep_mem_pairs hst p hp
+  have hnn := vals_nonneg hst p (by simpa using hp)
+  have := hB c hc p hmem hnn.1
+  exact ⟨hnn.1, hnn.2, this.2⟩
+
+/-- **The interval of `(?<b-a>…)` is well-formed unless the content lies strictly before the
+    cancelled capture.**  `transferCapture` computes the new capture from the interval just matched
+    `[s, e]` and the cancelled capture `[s2, e2]`; when both lie in `[0, N]` and `e < s2` does not
+    hold, the result is an interval inside `[0, N]`. -/
+theorem transferInterval_in_bounds (N s e s2 e2 : Int) (h1 : 0 ≤ s) (h2 : s ≤ e) (h3 : e ≤ N)
+    (h4 : 0 ≤ s2) (h5 : s2 ≤ e2) (h6 : e2 ≤ N) (hq : ¬ e < s2) :
+    0 ≤ (transferInterval s e s2 e2).1 ∧ (transferInterval s e s2 e2).1 ≤ (transferInterval s e s2 e2).2 ∧
+    (transferInterval s e s2 e2).2 ≤ N := by
+  unfold transferInterval
+  split
+  · simp; omega
+  · split
+    · simp; omega
+    · simp only; split <;> split <;> omega
+
+/-- the excluded case is real: content `[0,1]` strictly before the cancelled capture `[2,3]` gives the
+    "interval" `(2, 1)`, i.e. `addMatch(b, 2, -1)` — see design.d/C08.md, suspected defects. -/
+example : transferInterval 0 1 2 3 = (2, 1) := by decide
+
+/-! ### the interpreter primitives stay inside `Reach` -/
+
+/-- **`Runner.Capture` keeps the arrays reachable**: both orders of `start`/`end` (left-to-right and
+    right-to-left matching) add a well-formed interval when both ends lie in `[0, N]`. -/
+theorem capture_reach (N : Int) (k : Nat) (r : Runner) (h : Reach N k r.m) (c : Nat) (hc : c < k) (s e : Int)
+    (hs : 0 ≤ s) (hsN : s ≤ N) (he : 0 ≤ e) (heN : e ≤ N) : Reach N k (capture r c s e).m := by
+  unfold capture
+  by_cases hlt : e < s
+  · simp only [hlt, ite_true]
+    exact Reach.add _ c e (s - e) h hc he (by omega) (by omega)
+  · simp only [hlt, ite_false]
+    exact Reach.add _ c s (e - s) h hc hs (by omega) (by omega)
+
+/-- **`Runner.transferCapture` keeps the arrays reachable, except in the ill-formed case.**  For
+    `(?<cap-uncap>…)` with `uncap` matched, content `[s, e]` inside `[0, N]` and *not* ending strictly
+    before the innermost live capture of `uncap` starts, the balance step and the added interval are
+    within the hypotheses of `captures_in_bounds`.  (When `e < matchIndex uncap` the interval has
+    negative length: design.d/C08.md, suspected defects.) -/
+theorem transferCapture_reach (N : Int) (k : Nat) (r : Runner) (h : Reach N k r.m) (capnum uncapnum : Nat)
+    (hc : capnum < k) (hu : uncapnum < k) (hm : isMatched r.m uncapnum = true) (s e : Int)
+    (hs : 0 ≤ s) (hse : s ≤ e) (he : e ≤ N) (hq : ¬ e < matchIndex r.m uncapnum) :
+    Reach N k (transferCapture r (capnum : Int) uncapnum s e).m := by
+  obtain ⟨hb, hk, _⟩ := reach_inv N k r.m h
+  have hu' : uncapnum < r.m.matchcount.length := by omega
+  -- the innermost live capture of `uncapnum` and its bounds
+  have hne := (isMatched_iff_live r.m hb uncapnum hu').mp hm
+  obtain ⟨xs, p, hxs⟩ : ∃ xs p, absOf r.m uncapnum = xs ++ [p] := by
+    cases hrev : (absOf r.m uncapnum).reverse with
+    | nil => simp at hrev; exact absurd hrev hne
+    | cons p t => exact ⟨t.reverse, p, by have := congrArg List.reverse hrev; simpa using this⟩
+  obtain ⟨s2, l2⟩ := p
+  obtain ⟨hmi, hml⟩ := matchIndex_matchLength_top r.m hb uncapnum hu' xs s2 l2 hxs
+  have hbd := (captures_in_bounds N k r.m h uncapnum hu).1 (s2, l2) (by rw [hxs]; simp)
+  simp only at hbd
+  rw [hmi] at hq
+  have hiv := transferInterval_in_bounds N s e s2 (s2 + l2) hs hse he hbd.1 (by omega) hbd.2.2 hq
+  have hnlt : ¬ e < s := by omega
+  have hcap : ((capnum : Int) ≠ -1) := by omega
+  unfold transferCapture
+  simp only [hnlt, ite_false, hmi, hml, hcap, ne_eq, not_false_eq_true, ite_true, Int.toNat_natCast]
+  exact Reach.add _ capnum _ _ (Reach.bal _ uncapnum h hu hm) hc hiv.1 (by omega) (by omega)
+
+/-- `(?<-uncap>…)`: only the balance step. -/
+theorem transferCapture_pop_reach (N : Int) (k : Nat) (r : Runner) (h : Reach N k r.m) (uncapnum : Nat)
+    (hu : uncapnum < k) (hm : isMatched r.m uncapnum = true) (s e : Int) :
+    Reach N k (transferCapture r (-1) uncapnum s e).m := by
+  unfold transferCapture
+  simp only [ne_eq, not_true_eq_false, ite_false]
+  exact Reach.bal _ uncapnum h hu hm
+
+example : (transferCapture ⟨addMatch (newMatch 3) 1 0 1, [1]⟩ 2 1 1 2).m.arrays = [[0, 0], [0, 1, -1, -2, 0, 0, 0, 0], [1, 0]] := by decide
+
+/-! non-vacuity: a concrete run with nested captures, a balancing group and an undone capture -/
+
+/-- `(?<a>x)(?<a>x)(?<b-a>x)` then a failed `(?<-a>x)` attempt (balance, then backtracked), then group 0 -/
+def demoOps : List Op :=
+  [.cap 1 0 1, .cap 1 1 2, .transfer 2 1 2 3, .transfer (-1) 1 3 4, .uncap, .cap 0 0 3]
+
+example : (run 3 demoOps).m.arrays = [[0, 3], [0, 1, 1, 1, -3, -4, -1, -2], [2, 0]] := by decide
+example : (run 3 demoOps).m.matchcount = [1, 3, 1] := by decide
+example : abs (run 3 demoOps).m = [[(0, 3)], [(0, 1)], [(2, 0)]] := by decide
+example : (tidy (run 3 demoOps).m).arrays = [[0, 3], [0, 1, 1, 1, -3, -4, -1, -2], [2, 0]] ∧
+    (tidy (run 3 demoOps).m).matchcount = [1, 1, 1] := by decide
+example : groups (tidy (run 3 demoOps).m) = [((0, 3), [(0, 3)]), ((0, 1), [(0, 1)]), ((2, 0), [(2, 0)])] := by decide
+
+/-- the hypotheses of the theorems above are met along that run (so they are not vacuous): the
+    state before the balancing group is reachable, group 1 is matched there, and the balance step
+    drops its innermost capture -/
+example : Reach 4 3 (addMatch (addMatch (newMatch 3) 1 0 1) 1 1 1) :=
+  Reach.add _ 1 1 1 (Reach.add _ 1 0 1 Reach.init (by decide) (by decide) (by decide) (by decide))
+    (by decide) (by decide) (by decide) (by decide)
+example : isMatched (addMatch (addMatch (newMatch 3) 1 0 1) 1 1 1) 1 = true := by decide
+example : absOf (balanceMatch (addMatch (addMatch (newMatch 3) 1 0 1) 1 1 1) 1) 1 = [(0, 1)] := by decide
+
 end RegexVerif.Props.C08
